@@ -580,15 +580,21 @@ func TestCheck(t *testing.T) {
 	rule := fmt.Sprintf("A case is one construction sequence (Graph, Chain or Workflow front end) executed %d times on fresh eino objects and once by the reference well-formedness checker; "+
 		"EXHAUSTIVE sub-spaces (children that only enumerate): (1) every call sequence up to the stated length over each family alphabet after the family's prelude, ≤3 node keys: %s; "+
 		"(2) every call of the front end's full alphabet (graph %d, chain %d, workflow %d calls) inserted before / substituted for every position of each of %d well-formed base programs. "+
-		"SAMPLED: %d random longer sequences (mutated base programs, free sequences of 6..14 calls) in the remaining children. "+
+		"(3) late operations on retained objects: %d well-formed scenarios (workflow with field mappings / static values / branch / nested graphs, graph with branches / nested graph, chain and workflow nodes, chain with parallel / branch / nested graphs), "+
+		"each compiled with up to 3 option sets (plain, interrupt-before, interrupt-after), then every pair (late operation, Compile variant) and (Compile variant, late operation)%s, where the late operations (%d in total) are "+
+		"every mutating method of every retained object (WorkflowNode handles incl. End(), Workflow, Graph, Chain, Parallel, ChainBranch, nested graphs) and every mutation of a retained argument (end-node maps incl. GetEndNode(), field-mapping slices, field paths, interrupt-node slices, option and callback slices). "+
+		"SAMPLED: %d random longer sequences (mutated base programs, free sequences of 6..14 calls; every 4th a random sequence of 4..8 late operations) in the remaining children. "+
 		"Distinct = distinct (front end, state, call sequence); non-trivial = the reference predicts a successful Compile (immutability phase runs: later Add*/Compile, re-run of the first runnable on %d inputs) "+
 		"or at least two accepted calls before the first rejection.",
-		reps, strings.Join(famDesc, ", "), len(fullGraph), len(fullChain), len(fullWorkflow), len(bases), nRandom, len(runInputs))
+		reps, strings.Join(famDesc, ", "), len(fullGraph), len(fullChain), len(fullWorkflow), len(bases),
+		len(scenarios), map[bool]string{false: "", true: " and every ordered pair of late operations followed by Compile"}[cfg.Thorough()], totalLates(), nRandom, len(runInputs))
 	rep := mon.NewReporter(cfg, "exploration", rule, []string{
 		"node bodies, branch conditions and state handlers are deterministic pure functions of their input (and the per-run state)",
 		"error-ness, error identity (errors.Is with the first error / ErrGraphCompiled) and panics are compared, never message texts",
 		"a failing Compile is not required to poison the builder (only Add* errors are sticky); chain and workflow builder calls have no result and are observed through Compile",
-		"WithGetStateEnable has no public constructor in the pinned version and is not exercised; static values, nil node arguments, zero-target branches are not generated",
+		"WithGetStateEnable has no public constructor in the pinned version and is not exercised; nil node arguments, zero-target branches are not generated",
+		"every run of a compiled runnable is one Invoke and one Stream (chunks compared as a multiset) of the same input, incl. the nodes named by an interrupt; a difference counts only if it persists over 30 re-runs and an untouched control built by the same calls reproduces the old outcome 30 times",
+		"late operations: contents of values handed to eino as data (static values, node bodies, state) are the caller's and are not mutated; objects are not re-used in a second graph",
 		"runs whose result is not reproducible on the untouched first runnable are excluded from the before/after comparison (counted)",
 	}, cfg.Pick(2000, 20000))
 	defer func() {
@@ -695,6 +701,13 @@ func TestCheck(t *testing.T) {
 	rep.Require("sticky_errors_checked", 500)
 	rep.Require("recompiled_equivalent_options", 20)
 	rep.Require("first_runnable_unchanged_to_the_end", 20)
+	rep.Require("late_sequences", 1000)
+	rep.Require("late_add_refused_with_error", 100)
+	rep.Require("late_compile_equivalent_options_compared", 100)
+	rep.Require("late_runs_interrupted_before_the_late_operations", 100)
+	for _, n := range lateOpNames() {
+		rep.Require("late_op/"+n, 1)
+	}
 	for _, r := range []string{"reserved-key", "duplicate-key", "unknown-node", "duplicate-edge", "edge-from-end", "edge-to-start", "no-entry-edge", "no-exit-edge",
 		"uninferred-passthrough", "cycle-in-all-predecessor-mode", "single-target-branch", "state-handler-without-state", "handler-state-type", "handler-value-type",
 		"passthrough-handler-not-any", "node-key-option-outside-chain", "type-mismatch", "trigger-mode-on-chain-or-workflow", "max-steps-in-all-predecessor-mode",
